@@ -354,11 +354,13 @@ func (c *Conn) readUDP(b []byte) (*Conn, int, error) {
 		// get or create and cache the consistent connection for the socket
 		// that has the same local addr and remote addr.
 		uc, ok := c.connUDP.getConn(c.p, c.fd, rAddr)
-		if g.UDPReadTimeout > 0 {
-			_ = uc.SetReadDeadline(time.Now().Add(g.UDPReadTimeout))
-		}
 		if !ok {
 			g.onOpen(uc)
+		}
+		// arm the idle timer after the open notification, otherwise a
+		// short timeout can deliver the close notification first.
+		if g.UDPReadTimeout > 0 {
+			_ = uc.SetReadDeadline(time.Now().Add(g.UDPReadTimeout))
 		}
 		dstConn = uc
 	}
